@@ -412,6 +412,8 @@ class CLock(object):
         self.owner = None
         s = ACTIVE
         self._s = s
+        if self.preempt and s is not None and s.cur is not None:
+            s.ev("locknew", s.name_of(self, "L"))
 
     def acquire(self, blocking=True, timeout=-1):
         s = self._s
